@@ -35,6 +35,7 @@ def colOk (len : Nat) (c : List Val) (ty : Nat) : Bool :=
 /-- Table `a` is well formed inside `w`. -/
 def archOk (w : World) (a : Arch) : Bool :=
   a.mask.length == w.n && decide (a.handle < w.next) && a.cols.length == a.mask.count
+    && a.cols.all (fun c => c.length == a.ids.length)
     && (List.zipWith (colOk a.ids.length) a.cols a.mask.comps).all id
     && (List.range a.ids.length).all (rowOk w a)
     && w.foreign.contains (a.mask, a.handle)
